@@ -3,6 +3,7 @@ package web
 import (
 	"bytes"
 	"compress/zlib"
+	"encoding/binary"
 	"errors"
 	"io"
 
@@ -113,7 +114,72 @@ func DecompressWithZlib(input []byte) ([]byte, error) {
 	return out.Bytes(), nil
 }
 
+// lz4Truncated reports whether input ends before its lz4 frame is complete. The lz4 reader takes
+// the end of its input at a boundary within the frame (no frame at all, after the magic number, the
+// header, a block or the end mark) for the end of the stream and returns what it has, so a body that
+// was cut short there would be accepted with a part of its data, or none. Only the layout is
+// checked; frame kinds with no end mark of their own are left to the reader.
+func lz4Truncated(input []byte) bool {
+	const (
+		frameMagic     = 0x184D2204
+		frameSkipMagic = 0x184D2A50
+	)
+	for {
+		if len(input) < 4 {
+			return true
+		}
+		magic := binary.LittleEndian.Uint32(input)
+		if magic>>4 == frameSkipMagic>>4 {
+			if len(input) < 8 || uint64(len(input)-8) < uint64(binary.LittleEndian.Uint32(input[4:])) {
+				return true
+			}
+			input = input[8+binary.LittleEndian.Uint32(input[4:]):]
+			continue
+		}
+		if magic != frameMagic {
+			return false
+		}
+		if len(input) < 7 {
+			return true
+		}
+		flags := input[4]
+		header := 7 // magic number, FLG, BD, header checksum
+		if flags&0x08 != 0 {
+			header += 8 // content size
+		}
+		if flags&0x01 != 0 {
+			header += 4 // dictionary id
+		}
+		if len(input) < header {
+			return true
+		}
+		input = input[header:]
+		for {
+			if len(input) < 4 {
+				return true
+			}
+			size := uint64(binary.LittleEndian.Uint32(input) &^ (1 << 31))
+			input = input[4:]
+			if size == 0 {
+				break // end mark
+			}
+			if flags&0x10 != 0 {
+				size += 4 // block checksum
+			}
+			if uint64(len(input)) < size {
+				return true
+			}
+			input = input[size:]
+		}
+		// content checksum
+		return flags&0x04 != 0 && len(input) < 4
+	}
+}
+
 func DecompressWithLz4(input []byte) ([]byte, error) {
+	if lz4Truncated(input) {
+		return nil, io.ErrUnexpectedEOF
+	}
 	decompressor := lz4.NewReader(bytes.NewReader(input))
 	var out bytes.Buffer
 	if _, err := out.ReadFrom(decompressor); err != nil {
